@@ -18,7 +18,10 @@ def setup():
     print(log2[-2000:])
     ok3, log3, _ = core.build_harness("checked")
     print(log3[-1000:])
-    return 0 if (ok1 and ok2 and ok3) else 1
+    from vf import c18
+    ok4, log4 = c18.build_pywellen()
+    print(log4[-1000:])
+    return 0 if (ok1 and ok2 and ok3 and ok4) else 1
 
 
 def replay(prop, path):
